@@ -5,6 +5,10 @@ From Coq Require Import ZArith List Bool.
 Import ListNotations.
 Open Scope Z_scope.
 
+(* helpers for writing cases *)
+Fixpoint blk (l : list stmt) : block := match l with [] => BNil | s :: r => BCons s (blk r) end.
+Definition default_fuel : nat := Z.to_nat 6000.
+
 (* ---------------------------------------------------------------- pipeline *)
 
 Inductive cres :=
@@ -34,10 +38,18 @@ Definition run_compiled (fuel : nat) (c : fcase) : option (list line * stop) :=
 
 (* Known_C01_grouping: somewhere in the function an expression is emitted so that Rust's grammar
    groups it differently from the source tree (lost parentheses, `not` over a comparison, ...).
-   Defined by the re-parse itself (Core.Lower.regroups). *)
+   Defined by the re-parse itself: [reparses] for a whole body, Core.Lower.regroups for one
+   expression. *)
+(* the emitted body reads back (Rust's grammar) as the body the IR denotes *)
+Definition reparses (ib : iblock) : bool :=
+  match parse_block (emit_block ib) with
+  | Some b => rblock_eqb b (tree_of_block ib)
+  | None => false
+  end.
+
 Definition known_grouping (c : fcase) : bool :=
   match lower_fn c with
-  | LOk ib => regroups_block ib
+  | LOk ib => negb (reparses ib)
   | LErr => false
   end.
 Definition Known_C01_grouping (c : fcase) : Prop := known_grouping c = true.
@@ -112,6 +124,15 @@ Definition known_int_fallback (c : fcase) : bool :=
   | LErr => false
   end.
 Definition Known_C01_int_fallback (c : fcase) : Prop := known_int_fallback c = true.
+
+(* a small function used to show that the theorems' hypotheses are satisfiable:
+   def t(v0: int, v1: int): mut v2 = v0 + 7; for v3 in range(3): println(v2 + v3);
+                            if v1 < 0: println(v1 // 2)          called as t(3, -7) *)
+Definition nonvacuous_case : fcase :=
+  {| params := [0; 1]; args := [3; -7];
+     body := blk [SAssign BMut 2 None (EBin OpAdd (EVar 0) (EInt 7));
+                  SFor 3 (R1 (EInt 3)) (blk [SPrint (EBin OpAdd (EVar 2) (EVar 3))]);
+                  SIf (EBin OpLt (EVar 1) (EInt 0)) (blk [SPrint (EBin OpFloorDiv (EVar 1) (EInt 2))]) ENone] |}.
 
 (* ---------------------------------------------------------------- rendering *)
 
